@@ -5,6 +5,7 @@ import (
 	"fmt"
 	"reflect"
 	"sort"
+	"strings"
 	"time"
 
 	apiv1 "k8s.io/api/core/v1"
@@ -24,6 +25,90 @@ type Gen struct {
 	Populated     map[string]int  // the ones populated in some generated object
 	SchemaInvalid map[string]int  // objects dropped because the self-check of the OpenAPI part failed
 	Objects       map[string]int  // generated objects per kind
+	Focus         *Focus          // -focus: raise the probability of objects / fields that reach the named functions
+}
+
+// Focus is derived from the `file:function` pairs of broken rows of the deref inventory (props/c05.py passes
+// them when `every_deref_guarded_or_justified` no longer checks): which kinds to generate more of, whether the
+// healthy "deep" skeleton is needed to reach the function (dataplane / config generation), and a high population
+// probability for optional fields.  Without -focus the generator draws exactly the same cases as before.
+type Focus struct {
+	Spec  string
+	Kinds map[string]bool
+	Deep  bool
+}
+
+var focusByFile = map[string]struct {
+	kinds []string
+	deep  bool
+}{
+	"httproute.go":            {[]string{"HTTPRoute"}, true},
+	"common_filter.go":        {[]string{"HTTPRoute", "GRPCRoute", "SnippetsFilter"}, true},
+	"extension_ref_filter.go": {[]string{"HTTPRoute", "GRPCRoute", "SnippetsFilter"}, true},
+	"snippets_filter.go":      {[]string{"HTTPRoute", "SnippetsFilter"}, true},
+	"grpcroute.go":            {[]string{"GRPCRoute"}, true},
+	"tlsroute.go":             {[]string{"TLSRoute"}, true},
+	"route_common.go":         {[]string{"HTTPRoute", "GRPCRoute", "TLSRoute", "Gateway"}, true},
+	"gateway_listener.go":     {[]string{"Gateway"}, false},
+	"gateway.go":              {[]string{"Gateway"}, false},
+	"gatewayclass.go":         {[]string{"GatewayClass"}, false},
+	"backend_tls_policy.go":   {[]string{"BackendTLSPolicy", "HTTPRoute"}, true},
+	"backend_refs.go":         {[]string{"BackendTLSPolicy", "HTTPRoute", "GRPCRoute"}, true},
+	"nginxproxy.go":           {[]string{"NginxProxy"}, true},
+	"policies.go":             {[]string{"ClientSettingsPolicy", "ObservabilityPolicy", "UpstreamSettingsPolicy", "HTTPRoute"}, true},
+	"policy_ancestor.go":      {[]string{"ClientSettingsPolicy", "ObservabilityPolicy", "UpstreamSettingsPolicy", "BackendTLSPolicy"}, true},
+	"reference_grant.go":      {[]string{"ReferenceGrant", "HTTPRoute"}, false},
+	"configuration.go":        {[]string{"HTTPRoute", "GRPCRoute", "TLSRoute", "NginxProxy", "BackendTLSPolicy"}, true},
+	"convert.go":              {[]string{"HTTPRoute", "GRPCRoute"}, true},
+	"servers.go":              {[]string{"HTTPRoute", "GRPCRoute"}, true},
+	"stream_servers.go":       {[]string{"TLSRoute"}, true},
+	"upstreams.go":            {[]string{"HTTPRoute", "UpstreamSettingsPolicy", "BackendTLSPolicy"}, true},
+	"split_clients.go":        {[]string{"HTTPRoute"}, true},
+	"maps.go":                 {[]string{"HTTPRoute", "GRPCRoute", "TLSRoute"}, true},
+	"telemetry.go":            {[]string{"NginxProxy", "ObservabilityPolicy"}, true},
+	"base_http_config.go":     {[]string{"NginxProxy", "SnippetsFilter"}, true},
+	"main_config.go":          {[]string{"NginxProxy", "SnippetsFilter"}, true},
+	"generator.go":            {[]string{"ClientSettingsPolicy", "ObservabilityPolicy", "UpstreamSettingsPolicy"}, true},
+	"validator.go":            {[]string{"ClientSettingsPolicy", "ObservabilityPolicy", "UpstreamSettingsPolicy"}, true},
+	"processor.go":            {[]string{"UpstreamSettingsPolicy"}, true},
+	"prepare_requests.go":     {[]string{"HTTPRoute", "GRPCRoute", "TLSRoute", "Gateway", "BackendTLSPolicy"}, true},
+}
+
+// ParseFocus reads "file.go:func,file.go:func,…" (the function names only document the target).
+func ParseFocus(spec string) *Focus {
+	if spec == "" {
+		return nil
+	}
+	f := &Focus{Spec: spec, Kinds: map[string]bool{}}
+	for _, part := range strings.Split(spec, ",") {
+		file := part
+		if i := strings.Index(part, ":"); i >= 0 {
+			file = part[:i]
+		}
+		if i := strings.LastIndex(file, "/"); i >= 0 {
+			file = file[i+1:]
+		}
+		if e, ok := focusByFile[file]; ok {
+			for _, k := range e.kinds {
+				f.Kinds[k] = true
+			}
+			f.Deep = f.Deep || e.deep
+		} else {
+			f.Deep = true
+		}
+	}
+	return f
+}
+
+// want reports whether the focus asks for (more) objects of the kind.
+func (g *Gen) want(kind string) bool { return g.Focus != nil && g.Focus.Kinds[kind] }
+
+// popt replaces the drawn population probability by a high one under focus.
+func (g *Gen) popt(r *rng.R, drawn int) int {
+	if g.Focus == nil {
+		return drawn
+	}
+	return rng.Pick(r, []int{60, 90, 100, 100})
 }
 
 func NewGen() (*Gen, error) {
@@ -114,7 +199,7 @@ func (g *Gen) schemaObjects(r *rng.R, u *universe, tag func(string)) []client.Ob
 		}
 		return age
 	}
-	pOpt := rng.Pick(r, []int{15, 35, 60, 90, 100})
+	pOpt := g.popt(r, rng.Pick(r, []int{15, 35, 60, 90, 100}))
 	bias := rng.Pick(r, []int{50, 75, 90, 97, 100})
 	tag(fmt.Sprintf("popt-%d", pOpt))
 	tag(fmt.Sprintf("bias-%d", bias))
@@ -149,7 +234,7 @@ func (g *Gen) schemaObjects(r *rng.R, u *universe, tag func(string)) []client.Ob
 	if r.Chance(15, 100) {
 		add(g.objectB(r, u, "GatewayClass", "", "nginx-2", next(), pOpt, bias))
 	}
-	if r.Chance(60, 100) {
+	if c := r.Chance(60, 100); c || g.want("NginxProxy") {
 		add(g.objectB(r, u, "NginxProxy", "", "np0", next(), pOpt, bias))
 	}
 	// gateways
@@ -160,31 +245,31 @@ func (g *Gen) schemaObjects(r *rng.R, u *universe, tag func(string)) []client.Ob
 	if r.Chance(20, 100) {
 		add(g.objectB(r, u, "Gateway", rng.Pick(r, u.namespaces), "foreign-gw", next(), pOpt, bias))
 	}
-	for i := 0; i < r.Range(1, 3); i++ {
+	for i := 0; i < r.Range(1, 3) || (i < 2 && g.want("HTTPRoute")); i++ {
 		add(g.objectB(r, u, "HTTPRoute", rng.Pick(r, u.namespaces), u.hroutes[i], next(), pOpt, bias))
 	}
-	for i := 0; i < r.Intn(3); i++ {
+	for i := 0; i < r.Intn(3) || (i < 2 && g.want("GRPCRoute")); i++ {
 		add(g.objectB(r, u, "GRPCRoute", rng.Pick(r, u.namespaces), u.groutes[i], next(), pOpt, bias))
 	}
-	for i := 0; i < r.Intn(3); i++ {
+	for i := 0; i < r.Intn(3) || (i < 2 && g.want("TLSRoute")); i++ {
 		add(g.objectB(r, u, "TLSRoute", rng.Pick(r, u.namespaces), fmt.Sprintf("tr%d", i), next(), pOpt, bias))
 	}
-	for i := 0; i < r.Intn(3); i++ {
+	for i := 0; i < r.Intn(3) || (i < 2 && g.want("ReferenceGrant")); i++ {
 		add(g.objectB(r, u, "ReferenceGrant", rng.Pick(r, u.namespaces), fmt.Sprintf("rg%d", i), next(), pOpt, bias))
 	}
-	for i := 0; i < r.Intn(3); i++ {
+	for i := 0; i < r.Intn(3) || (i < 2 && g.want("BackendTLSPolicy")); i++ {
 		add(foreignStatus(r, g.objectB(r, u, "BackendTLSPolicy", rng.Pick(r, u.namespaces), fmt.Sprintf("btp%d", i), next(), pOpt, bias), tag))
 	}
-	for i := 0; i < r.Intn(3); i++ {
+	for i := 0; i < r.Intn(3) || (i < 2 && g.want("SnippetsFilter")); i++ {
 		add(g.objectB(r, u, "SnippetsFilter", rng.Pick(r, u.namespaces), fmt.Sprintf("sf%d", i), next(), pOpt, bias))
 	}
-	for i := 0; i < r.Intn(3); i++ {
+	for i := 0; i < r.Intn(3) || (i < 2 && g.want("ClientSettingsPolicy")); i++ {
 		add(foreignStatus(r, g.objectB(r, u, "ClientSettingsPolicy", rng.Pick(r, u.namespaces), fmt.Sprintf("csp%d", i), next(), pOpt, bias), tag))
 	}
-	for i := 0; i < r.Intn(3); i++ {
+	for i := 0; i < r.Intn(3) || (i < 2 && g.want("ObservabilityPolicy")); i++ {
 		add(foreignStatus(r, g.objectB(r, u, "ObservabilityPolicy", rng.Pick(r, u.namespaces), fmt.Sprintf("op%d", i), next(), pOpt, bias), tag))
 	}
-	for i := 0; i < r.Intn(3); i++ {
+	for i := 0; i < r.Intn(3) || (i < 2 && g.want("UpstreamSettingsPolicy")); i++ {
 		add(foreignStatus(r, g.objectB(r, u, "UpstreamSettingsPolicy", rng.Pick(r, u.namespaces), fmt.Sprintf("usp%d", i), next(), pOpt, bias), tag))
 	}
 	return objs
@@ -268,7 +353,7 @@ func (g *Gen) deepObjects(r *rng.R, u *universe, tag func(string)) []client.Obje
 	var objs []client.Object
 	age := 0
 	next := func() int { age++; return age }
-	pOpt := rng.Pick(r, []int{20, 50, 80, 100})
+	pOpt := g.popt(r, rng.Pick(r, []int{20, 50, 80, 100}))
 	bias := rng.Pick(r, []int{85, 93, 97, 100})
 	tag(fmt.Sprintf("deep-popt-%d", pOpt))
 	tag(fmt.Sprintf("deep-bias-%d", bias))
@@ -278,7 +363,7 @@ func (g *Gen) deepObjects(r *rng.R, u *universe, tag func(string)) []client.Obje
 		}
 	}
 	gc := p.GatewayClass(p.DefaultClass, p.DefaultController, next())
-	if r.Chance(50, 100) {
+	if c := r.Chance(50, 100); c || g.want("NginxProxy") {
 		np := g.objectB(r, u, "NginxProxy", "", "np0", next(), pOpt, 100)
 		if np != nil {
 			add(np)
@@ -345,7 +430,7 @@ func (g *Gen) deepObjects(r *rng.R, u *universe, tag func(string)) []client.Obje
 		}
 		return o
 	}
-	for i := 0; i < r.Range(1, 3); i++ {
+	for i := 0; i < r.Range(1, 3) || (i < 2 && g.want("HTTPRoute")); i++ {
 		add(foreignStatus(r, attach(g.objectB(r, u, "HTTPRoute", routeNS(), u.hroutes[i], next(), pOpt, bias)), tag))
 	}
 	// a plain canary route to a plain Service keeps the upstream / proxy_pass path exercised in every deep
@@ -356,7 +441,7 @@ func (g *Gen) deepObjects(r *rng.R, u *universe, tag func(string)) []client.Obje
 	add(canary)
 	// policies aimed at the canary route / its Service / the Gateway, so that policy generation runs
 	gwGroup := "gateway.networking.k8s.io"
-	if r.Chance(50, 100) {
+	if c := r.Chance(50, 100); c || g.want("ClientSettingsPolicy") {
 		csp := g.objectB(r, u, "ClientSettingsPolicy", cns, "csp-canary", next(), pOpt, 100)
 		target := map[string]any{"group": gwGroup, "kind": "HTTPRoute", "name": "hr-canary"}
 		if r.Chance(30, 100) {
@@ -369,7 +454,7 @@ func (g *Gen) deepObjects(r *rng.R, u *universe, tag func(string)) []client.Obje
 		add(foreignStatus(r, csp, tag))
 		tag("deep-csp-canary")
 	}
-	if r.Chance(50, 100) {
+	if c := r.Chance(50, 100); c || g.want("ObservabilityPolicy") {
 		op := g.objectB(r, u, "ObservabilityPolicy", cns, "op-canary", next(), 100, 100)
 		patch(op, func(m map[string]any) {
 			asMap(m["spec"])["targetRefs"] = []any{map[string]any{"group": gwGroup, "kind": "HTTPRoute", "name": "hr-canary"}}
@@ -377,7 +462,7 @@ func (g *Gen) deepObjects(r *rng.R, u *universe, tag func(string)) []client.Obje
 		add(foreignStatus(r, op, tag))
 		tag("deep-op-canary")
 	}
-	if r.Chance(50, 100) {
+	if c := r.Chance(50, 100); c || g.want("UpstreamSettingsPolicy") {
 		usp := g.objectB(r, u, "UpstreamSettingsPolicy", cns, "usp-canary", next(), pOpt, 100)
 		patch(usp, func(m map[string]any) {
 			asMap(m["spec"])["targetRefs"] = []any{map[string]any{"group": "core", "kind": "Service", "name": "svc0"}}
@@ -385,7 +470,7 @@ func (g *Gen) deepObjects(r *rng.R, u *universe, tag func(string)) []client.Obje
 		add(foreignStatus(r, usp, tag))
 		tag("deep-usp-canary")
 	}
-	if r.Chance(35, 100) {
+	if c := r.Chance(35, 100); c || g.want("BackendTLSPolicy") {
 		btp := g.objectB(r, u, "BackendTLSPolicy", cns, "btp-canary", next(), pOpt, 100)
 		if btp != nil {
 			patch(btp, func(m map[string]any) {
@@ -399,10 +484,10 @@ func (g *Gen) deepObjects(r *rng.R, u *universe, tag func(string)) []client.Obje
 			add(btp)
 		}
 	}
-	for i := 0; i < r.Intn(3); i++ {
+	for i := 0; i < r.Intn(3) || (i < 2 && g.want("GRPCRoute")); i++ {
 		add(attach(g.objectB(r, u, "GRPCRoute", routeNS(), u.groutes[i], next(), pOpt, bias)))
 	}
-	for i := 0; i < r.Intn(3); i++ {
+	for i := 0; i < r.Intn(3) || (i < 2 && g.want("TLSRoute")); i++ {
 		tr := attach(g.objectB(r, u, "TLSRoute", routeNS(), fmt.Sprintf("tr%d", i), next(), pOpt, bias))
 		if tr != nil && r.Chance(70, 100) {
 			// exactly one rule with one backendRef is what the controller supports
@@ -419,22 +504,22 @@ func (g *Gen) deepObjects(r *rng.R, u *universe, tag func(string)) []client.Obje
 		}
 		add(tr)
 	}
-	for i := 0; i < r.Intn(3); i++ {
+	for i := 0; i < r.Intn(3) || (i < 2 && g.want("ReferenceGrant")); i++ {
 		add(g.objectB(r, u, "ReferenceGrant", rng.Pick(r, u.namespaces), fmt.Sprintf("rg%d", i), next(), pOpt, bias))
 	}
-	for i := 0; i < r.Intn(3); i++ {
+	for i := 0; i < r.Intn(3) || (i < 2 && g.want("BackendTLSPolicy")); i++ {
 		add(foreignStatus(r, g.objectB(r, u, "BackendTLSPolicy", rng.Pick(r, u.namespaces), fmt.Sprintf("btp%d", i), next(), pOpt, bias), tag))
 	}
-	for i := 0; i < r.Intn(3); i++ {
+	for i := 0; i < r.Intn(3) || (i < 2 && g.want("SnippetsFilter")); i++ {
 		add(g.objectB(r, u, "SnippetsFilter", rng.Pick(r, u.namespaces), fmt.Sprintf("sf%d", i), next(), pOpt, bias))
 	}
-	for i := 0; i < r.Intn(3); i++ {
+	for i := 0; i < r.Intn(3) || (i < 2 && g.want("ClientSettingsPolicy")); i++ {
 		add(foreignStatus(r, g.objectB(r, u, "ClientSettingsPolicy", rng.Pick(r, u.namespaces), fmt.Sprintf("csp%d", i), next(), pOpt, bias), tag))
 	}
-	for i := 0; i < r.Intn(3); i++ {
+	for i := 0; i < r.Intn(3) || (i < 2 && g.want("ObservabilityPolicy")); i++ {
 		add(foreignStatus(r, g.objectB(r, u, "ObservabilityPolicy", rng.Pick(r, u.namespaces), fmt.Sprintf("op%d", i), next(), pOpt, bias), tag))
 	}
-	for i := 0; i < r.Intn(3); i++ {
+	for i := 0; i < r.Intn(3) || (i < 2 && g.want("UpstreamSettingsPolicy")); i++ {
 		add(foreignStatus(r, g.objectB(r, u, "UpstreamSettingsPolicy", rng.Pick(r, u.namespaces), fmt.Sprintf("usp%d", i), next(), pOpt, bias), tag))
 	}
 	return objs
@@ -638,7 +723,17 @@ func (g *Gen) Case(r *rng.R, id int) *Case {
 		tag("plus")
 	}
 	u := newUniverse()
-	switch k := id % 10; {
+	k := id % 10
+	if g.Focus != nil {
+		// focused search: the deep skeleton in 8 of 10 cases when the function needs attached routes, schema otherwise
+		if g.Focus.Deep && k < 8 {
+			k = 6
+		} else {
+			k = 3
+		}
+		tag("focus")
+	}
+	switch {
 	case k >= 6 && k <= 8:
 		cs.Profile = "deep"
 		objs := coreObjects(r, u, tag)
@@ -768,4 +863,3 @@ func eventsOf(objs []client.Object) []Event {
 	}
 	return out
 }
-
